@@ -362,7 +362,7 @@ class Prop:
             "value-equal objects, tuples, ints, dataclasses; identity-hashed objects; '7' next to 7) x the 6 serialisation mappers (none / "
             "set data in place / wrap / new dict keeping or dropping data_id / extra entry read back by the decoder) with the inverse deserialisation mapper (at N nodes: 1 (quick) or 2 "
             "of the 6 mappers per tree); trees under a calc_data_id hook; typed trees; emptied trees (clear, remove of the last top "
-            "node); seeded random trees (5..18 nodes quick, 5..30 thorough); 47 hand-written + 150 (thorough 1500) random dict lists (missing/unhashable data, bad data_id / node_id / children entries, non-dict items); Node.from_dict "
+            "node); seeded random trees (5..18 nodes quick, 5..30 thorough); 47 hand-written + 150 (thorough 800) random dict lists (missing/unhashable data, bad data_id / node_id / children entries, non-dict items); Node.from_dict "
             "into every node of every forest <= 3 (thorough 4) nodes x 3 calc_data_id hooks x 6 item lists.  Every dump goes through "
             "json.dumps/json.loads before from_dict.  A case is one tree (or one dict list); distinct = distinct desc; non-trivial = >= 3 nodes")
     exhaustive_note = ("all shapes <= 3 nodes x all labelings (2 strings x 5 data_id choices; quick: 2 choices at 3 nodes); "
@@ -385,7 +385,8 @@ class Prop:
               "pre-order, for string data without mapper and for any inverse mapper pair, for every tree with unique sibling data_ids; "
               "(3) for ANY input from_dict builds exactly one node per item with the item's data and effective id, never a tree with two "
               "equal-id siblings, refuses well-formed inputs iff two sibling items share an effective id and then only with "
-              "UniqueConstraintError; Node.from_dict into an existing tree keeps sibling uniqueness; (4) canonical dict lists are "
+              "UniqueConstraintError, registers only distinct non-zero explicit node ids; Node.from_dict into an existing tree keeps "
+              "sibling uniqueness; unhashable data (documented with explicit data_id / calc_data_id hook) is covered; (4) canonical dict lists are "
               "reproduced exactly by to_dict_list(from_dict(d)); (5) the literal keys, the data_id test and the statement order of "
               "Node.to_dict are lifted from the source on every run and proved equal to the model's.  Tied to /repo on every run by a "
               "correspondence check (vm_compute; every dump really goes through json.dumps/json.loads) and an independent Python oracle "
@@ -393,7 +394,7 @@ class Prop:
         note=("Trusted: Coq kernel + vm_compute; hand-written model theories/Forest/DictList.v (tied by the correspondence and the "
               "generated facts only); harness; JSON transport; mapper assumptions (listed). Not modelled: 'node_id' entries of "
               "hand-written dicts, the partial state a refused Node.from_dict leaves behind. Print Assumptions: closed under the "
-              "global context for all 16 theorems."),
+              "global context for all 17 theorems."),
         technique="Coq proof about an executable Gallina model + differential correspondence check (vm_compute) + Python oracle",
         design_ref="DESIGN.md section 6 (C14)",
     )
@@ -497,7 +498,7 @@ class Prop:
         # (5) hand-written / malformed inputs of from_dict
         yield from LOADS
         # (5b) random dict lists, mostly valid + malformed entries of every kind (from_dict on ANY input)
-        for _ in range(150 if tier == "quick" else 1500):
+        for _ in range(150 if tier == "quick" else 800):
             yield dict(load=random_items(rng, rng.randint(1, 4), 0))
         # (6) Node.from_dict into a node of an existing tree (with and without calc_data_id hook)
         items_pool = [
